@@ -43,6 +43,9 @@ ENCODING RULES (each is part of the trusted base of this tie; listed in coq/theo
  E8  self.match_string / use_regexp / strict_checking / verbose_level / exclude_paths / exclude_types_tuple are the
      constructor's arguments (checked: __init__ assigns each of them from the parameter of the same name, SetOrdered /
      tuple of it for the two exclusions); self.case_sensitive is what __init__ computes (g_init passes it on).
+ E9  deepdiff/helper.py: the names the fragment imports from it - strings, numbers (only_numbers, datetimes), ipranges,
+     RE_COMPILED_TYPE, add_to_frozen_set - are CHECKED to be bound exactly once, by exactly the present text; their
+     meaning on the model's universe is x_is / i_is of SearchStmt.v (numpy numbers, complex, time, ip ranges: outside it).
 SKIP RULES
  S1  docstrings; module-level statements other than class DeepSearch (imports are CHECKED to bind the class names used
      in isinstance tests to collections.abc / deepdiff.helper); class grep; `warning_num = 0`.
@@ -134,6 +137,7 @@ SKIP_INIT_SRC = [   # S3: statements of __init__ that are not translated (exact 
     "empty_keys = [k for k, v in self.items() if not v]",
     "for k in empty_keys:\n    del self[k]",
 ]
+INIT_SHAPE = "SSTTSSSSSSSTTSSTSS"      # S = untranslated (S3, in the order of SKIP_INIT_SRC), T = translated
 INIT_PARAMS = ("self, obj, item, exclude_paths=SetOrdered(), exclude_regex_paths=SetOrdered(), exclude_types=SetOrdered(), "
                "verbose_level=1, case_sensitive=False, match_string=False, use_regexp=False, strict_checking=True, **kwargs")
 SET_OR_DICT_SRC = "return dict_() if self.verbose_level >= 2 else SetOrdered()"
@@ -154,6 +158,40 @@ EXCL_RE_SRC = ("self.exclude_regex_paths and any([exclude_regex_path.search(pare
 IMPORTS_SRC = ["import re", "from collections.abc import MutableMapping, Iterable", "from deepdiff.helper import SetOrdered",
                "import logging",
                "from deepdiff.helper import strings, numbers, add_to_frozen_set, get_doc, dict_, RE_COMPILED_TYPE, ipranges"]
+
+
+HELPER = "deepdiff/helper.py"
+HELPER_SRC = {      # E9
+    "strings": "strings = (str, bytes)",
+    "only_numbers": "only_numbers = (int, float, complex, Decimal) + numpy_numbers",
+    "datetimes": "datetimes = (datetime.datetime, datetime.date, datetime.timedelta, datetime.time)",
+    "ipranges": "ipranges = (ipaddress.IPv4Interface, ipaddress.IPv6Interface, ipaddress.IPv4Network, ipaddress.IPv6Network)",
+    "numbers": "numbers: Tuple = only_numbers + datetimes",
+    "RE_COMPILED_TYPE": "RE_COMPILED_TYPE = type(re.compile(''))",
+    "add_to_frozen_set": "def add_to_frozen_set(parents_ids, item_id):\n    return parents_ids | {item_id}",
+}
+
+
+def check_helper(repo):
+    with open(os.path.join(repo, HELPER)) as f:
+        tree = ast.parse(f.read())
+    bound = {k: 0 for k in HELPER_SRC}
+    for n in ast.walk(tree):
+        name = None
+        if isinstance(n, ast.Name) and isinstance(n.ctx, (ast.Store, ast.Del)):
+            name = n.id
+        elif isinstance(n, (ast.FunctionDef, ast.ClassDef, ast.AsyncFunctionDef)):
+            name = n.name
+        elif isinstance(n, ast.alias):
+            name = (n.asname or n.name).split(".")[0]
+        elif isinstance(n, ast.arg):
+            continue
+        if name in bound:
+            bound[name] += 1
+    top = {ast.dump(n) for n in tree.body}
+    for k, src in HELPER_SRC.items():
+        if bound[k] != 1 or dump_src(src)[0] not in top:
+            raise Unsupported("%s: %s is not bound exactly once by `%s`" % (HELPER, k, src.splitlines()[0]))
 
 
 def dump_src(src):
@@ -785,14 +823,17 @@ class Translator:
         skip = [d for s in SKIP_INIT_SRC for d in dump_src(s)]
         seen = []
         stmts = []
+        shape = ""
         for s in self.body_of(fn):
             d = ast.dump(s)
             if d in skip:
                 seen.append(d)
+                shape += "S"
                 continue
             stmts.append(s)
-        if sorted(seen) != sorted(skip):
-            bad(fn, "__init__: the untranslated statements (S3) are not exactly the expected ones")
+            shape += "T"
+        if seen != skip or shape != INIT_SHAPE:
+            bad(fn, "__init__: the untranslated statements (S3) are not exactly the expected ones, in the expected places")
         env = {"__init__": True, "obj": ("X", "v_obj"), "item": ("V", "v_item"),
                "case_sensitive": ("B", "(cs_flag c)"), "strict_checking": ("B", "(strict c)"),
                "self.use_regexp": ("B", "(use_regexp c)")}
@@ -859,6 +900,7 @@ def translate(repo):
     with open(p) as f:
         src = f.read()
     tr = Translator(ast.parse(src))
+    check_helper(repo)
     tr.check_module()
     order = tr.order()
     out = [HEADER]
